@@ -735,11 +735,13 @@ def run(ctx, repo):
     n_fmt = 0
     for node, env in seen:
         fmt = node.left.value
-        specs = re.findall(r'%(0?)(\d*)d', fmt)
+        allspecs = re.findall(r'%(0?)(\d*)(?:\.\d+)?([a-zA-Z])', fmt.replace('%%', ''))
         right = node.right.elts if isinstance(node.right, ast.Tuple) else [node.right]
-        if len(specs) != len(right):
+        if len(allspecs) != len(right):
             continue
-        for (zero, width), arg in zip(specs, right):
+        for (zero, width, conv_), arg in zip(allspecs, right):
+            if conv_ != 'd':
+                continue            # the decimals appended by the same format ('%d:%02d%s')
             if zero == '0':
                 n_fmt += 1
                 nm = ast.unparse(arg)
@@ -761,7 +763,9 @@ def run(ctx, repo):
     fmts = sorted({node.left.value for node, _ in seen})
     allf = sorted({n.left.value for n in ast.walk(fs) if isinstance(n, ast.BinOp) and isinstance(n.op, ast.Mod)
                    and isinstance(n.left, ast.Constant) and isinstance(n.left.value, str) and '%' in n.left.value and 'd' in n.left.value})
-    if '%d:%02d:%02d' in allf and '%d:%02d' in allf:
+    # the decimals may be appended by the same format ('%d:%02d%s') or afterwards: what matters is the fields before them
+    heads = {re.sub(r'(%s)+$', '', f_) for f_ in allf}
+    if '%d:%02d:%02d' in heads and '%d:%02d' in heads and all(re.fullmatch(r'%d(:%02d)*', h_) for h_ in heads if ':' in h_):
         ctx.ok('R3', 'formats %s' % allf)
     else:
         ctx.finding('R3', '%s::format_seconds_as_time::formats' % UTILS, UTILS, fs.lineno,
